@@ -18,6 +18,14 @@ S over construction routes and orders (construction_probe): a plain Lévy model 
 object / inside a family exponential model, re-expressed in other representations and only THEN wrapped with the generic public constructor
 ExponentialOfLevyModel(spot, r, d, levy_model), converted further, wrapped again under another market; the family class built from the SAME
 parameter object; after every step every live exponential model against the martingale statements and against a freshly built model.
+S over use-then-inspect histories (aliasing between a model object and the library's consumers of models): half of the model objects that
+ANY probe above judges are first handed to consumers (params marker "__used__" -> make -> apply_uses: MarkovChainProcess on small explicit
+boxes and on ordinary grids, the grid constructors, CouplingMarkovChain + next_level, MarkovChainLevyCopula with the object as a margin,
+MarkovChainSDE with the object as the driver, LevyProcess, COS / FFT pricers, run_default_calibration, the generic ExponentialOfLevyModel
+wrapper and a consumer of the wrapper) and only then judged by the same oracles (the exponent against the Lévy–Khintchine integral of the
+object's OWN current drift / sigma / density / representation, cumulants, forward, drifts, chain); use_probe: one object, consumer after
+consumer, after each one compared with a never-used twin (density, drift in a common representation, exponent, cumulants, omega, drifts,
+cf), then a second chain built from the used object against the chain of the twin; construction plans carry a use step as well.
 """
 from __future__ import annotations
 
@@ -65,7 +73,17 @@ RULE = ("models: defaults of HEM / Merton / VG / CGMY / Black-Scholes, every CGM
         "(spot, r, d) after a random step), all live exponential models re-examined after every step; every other model one Markov chain on "
         "the generic wrapper as the walk left it. non-trivial = the quadrature converged (estimated error "
         "<= 1e-12) / the walk changes representation at least once / the chain has >= 5 states / the closed-form value is not "
-        "identically 0 / the plan changes representation at least once; distinct = distinct (family, parameters, u | s | w | walk | grid | plan)")
+        "identically 0 / the plan changes representation at least once; distinct = distinct (family, parameters, u | s | w | walk | grid | plan). "
+        "use-then-inspect histories: every model of the stream / closed-form list / edge and near streams and its re-initialised variant reaches ALL "
+        "probes, with probability 1/2, as an object that was first handed to 1..3 library consumers of models (draw_uses: first one of "
+        "{MarkovChainProcess + initialisation (probability 1/2; method INVERSION / ALIAS / BINARYSEARCHTREEADAPTED1D), CouplingMarkovChain + 0..2 "
+        "next_level, a grid constructor, LevyProcess, MarkovChainLevyCopula with the object as first / second margin (finite-variation margins only), "
+        "generic wrapper + {nothing, chain, COS, LevyProcess} on the wrapper}, then any of those or COS / FFT / run_default_calibration / the object as "
+        "driver of a forward market model in MarkovChainSDE / read-only queries; grids: uniform h in {0.1, 0.05, 0.02} built from the model, fixed boxes "
+        "of 5..41 points with h in {0.01 .. 0.1}, geometric, probability-step, credit); use_probe: per model 2 (thorough 3) of {plain Lévy model, "
+        "family exponential model, generic wrapper}, 1..3 consumers one after the other with a twin comparison after each, then a second chain on a "
+        "uniform (h in {0.1, 0.05, 0.01}) or fixed grid built from the used object; construction plans: a use step at {none, start, wrapped, post}; "
+        "non-trivial = at least one consumer accepted the object")
 NOT_PROVED = [
     "VG and CGMY: levy_exponent(u) = Lévy–Khintchine integral of the density is compared with mpmath quadrature (25 digits) of the model's own "
     "density, not proved (HEM, Merton, Black-Scholes: proved, hem_levy_exponent_is_LK / merton_levy_exponent_is_LK, every complex argument "
@@ -84,6 +102,10 @@ NOT_PROVED = [
     "modelled in M (M's omega takes the ORIGINAL drift; that the wrapper reads the original and not the current triplet drift is only compared: "
     "cf(-i) = forward, drift() = r - d - psi(-i) against a fresh model and against the quadrature of the current triplet, omega / cf against the "
     "freshly built family model, chain drift against the martingale drift of the fresh model)",
+    "use-then-inspect histories are sampled (1..3 consumers from the list in RULE, with small budgets: 2 paths, <= 2 levels, COS n <= 1000), not "
+    "proved: M has no notion of object identity; a consumer outside the list (Monte-Carlo engines, the SDE couplings, plotting helpers), a Lévy copula "
+    "chain on margins of infinite variation (the library starts worker processes there) and mutation visible only after more than one chain are "
+    "not reached; a consumer that raises is only counted (coverage c10.use:<consumer>:raises:*), whether it should accept the object is not C10's subject",
     "parameters next to the special values (near_stream) are sampled (fixed offsets 1e-3 .. 1e-9 on each admissible side), not covered: a "
     "special-case band narrower than 1e-9 is not seen, nor are CGMY y -> 2, g, m -> 0 / 1, HEM eta1 -> 1 closer than edge_stream goes "
     "(reasons at NEAR_POINTS); arguments u next to 0 are not generated (2e-10 absolute is vacuous there; the derivatives at 0 are the "
@@ -105,6 +127,12 @@ ASSUMPTIONS = [
     "against the quadrature of the current triplet 2e-10 of the same scale, cf 1e-11 relative; the direct-simulation statement is demanded of "
     "every exponential model LevyProcess can simulate directly (the generic wrapper fails it on the unchanged tree: known finding "
     "C10-generic-wrapper-direct-drift, suppressed only while process_drift() is exactly the current triplet drift)",
+    "use-then-inspect: 'consumers leave the caller's object describing the same process' is read as: sigma, the density (declared support, values at "
+    "8 points, finite-variation flag), the triplet drift re-expressed on a copy in the CENTER and the canonical representation, _original_drift, "
+    "exponent at 3 arguments, cumulants 1, 2, 4, omega, drift(), process_drift(), cf of the log-spot equal to those of a never-used twin at 1e-12 "
+    "relative (observed: identical); a consumer that only re-expressed the triplet consistently in another representation would pass; the chain of a "
+    "used object (grid, drift, diffusion coefficient, rates) equals the chain of the twin at 1e-12 relative; quadratures of a density that declares a "
+    "bounded support break at its ends (only a mutated object has one)",
     "the theorems speak about hemDensity / mertonDensity of Lemmas/C09Hem.lean / C09Special.lean, the transcriptions of _HEMLevyMeasure.__call__ "
     "(hem.py:55-62) and _MertonLevyMeasure.__call__ (merton.py:44-47) that C09 compares with the code; integrals are Bochner integrals over R "
     "(the HEM density is 0 at 0, so R and R \\ {0} agree); hypotheses eta1, eta2 > 0, sigma_j > 0 are the constructors' constraints",
@@ -138,13 +166,173 @@ def ybranch(fam, params):
     return "y<0" if y < 0 else "y=0" if y == 0 else "0<y<1" if y < 1 else "y=1" if y == 1 else "1<y<2"
 
 
+USED = "__used__"         # marker inside a params dict: the consumers the model object is handed to before it is judged
+
+
+def plain(params):
+    """the params without the use-history marker (for look-ups on a throw-away object: parameters, native representation, ...)"""
+    return {k: v for k, v in params.items() if k != USED}
+
+
 def make(fam, params, exp=False, **kw):
     """params may carry the marker "__reinit__": the model is then rebuilt the way calibration rebuilds it (parameter object
-    edited and re-initialised, zoo.reinitialised) - a second construction history of the same model"""
+    edited and re-initialised, zoo.reinitialised) - a second construction history of the same model; and the marker "__used__"
+    = [consumer spec, ...] (draw_uses): the constructed object is first handed to these library consumers of models
+    (apply_uses) and only then returned to the probe that judges it - consumers must leave the caller's object describing the
+    same process"""
+    uses = params.get(USED)
+    params = plain(params)
     if fam == "bs":
         em = zoo.make_exp("bs", params, **kw)
-        return em if exp else em.levy_model
-    return zoo.make_exp(fam, params, **kw) if exp else zoo.make_levy(fam, params)
+        m = em if exp else em.levy_model
+    else:
+        m = zoo.make_exp(fam, params, **kw) if exp else zoo.make_levy(fam, params)
+    if uses:
+        apply_uses(m, uses)
+    return m
+
+
+# ---------------------------------------------------------------------- use-then-inspect histories: the consumers of models
+USE_LOG = {}              # "kind:outcome" -> count, flushed into ctx.branches by run()
+_USE_PRODUCT = Product(payoff_underlying=Spot(), payoff=Vanilla(strike=100.0, payoff_type=PayoffType.CALL), maturity=1.0)
+GRID_SPECS = [["uniform", 0.1, 0.99], ["uniform", 0.05, 0.999], ["uniform", 0.02, 0.99],            # ordinary grids (built FROM the model)
+              ["fixed", 0.05, 5], ["fixed", 0.01, 41], ["fixed", 0.1, 9], ["fixed", 0.02, 21],       # explicitly small boxes
+              ["geometric", 0.1, 4], ["probstep", 0.1, 0.05], ["credit", 0.1, -0.3]]
+
+
+def _use_grid(model, g, dimension=1):
+    kind, h, x = g
+    kw = {"uniform": dict(truncation_probability=x), "fixed": dict(nb_of_points=x, dimension=dimension), "geometric": dict(nb=x),
+          "probstep": dict(minimum_probability_step=x, dimension=dimension), "credit": dict(level_a=x)}[kind]
+    return zoo.make_grid(kind, model, h, **kw)[0]
+
+
+def consume(model, use):
+    """hand `model` to one public consumer of models, the way user code does, and throw the consumer away.  use (JSON):
+    ["grid", g] a grid constructor;  ["chain", g, method] MarkovChainProcess + initialisation (what every CTMC pricing starts with);
+    ["coupling", g, levels] CouplingMarkovChain + initialisation + pre_computation + `levels` next_level calls (the multilevel scheme);
+    ["copula_chain", h, nb, position] the object as one margin of a LevyCopulaModel handed to MarkovChainLevyCopula on a 2-d box;
+    ["sde", g] the object as the driver of a Lévy forward market model handed to MarkovChainSDE (plain Lévy models);
+    ["levyprocess"] LevyProcess + initialisation + deterministic path + one direct path where the family can be simulated directly;
+    ["cos", n] / ["fft"] the Fourier pricers, ["calibration", bs_sigma] run_default_calibration (exponential models);
+    ["evaluate"] the object's own read-only queries;
+    ["wrapper", spot, r, d, inner] the generic ExponentialOfLevyModel around the object's Lévy model, then `inner` on the wrapper.
+    Returns False when the consumer does not apply to this kind of object."""
+    kind = use[0]
+    is_exp = isinstance(model, ExponentialOfLevyModel)
+    with np.errstate(all="ignore"):
+        if kind == "grid":
+            _use_grid(model, use[1])
+        elif kind == "chain":
+            mc = MarkovChainProcess(model, SamplingMethod[use[2]], _use_grid(model, use[1]))
+            mc.initialisation(_USE_PRODUCT)
+            mc.process_drift(), mc.intensity()
+        elif kind == "coupling":
+            from rpylib.process.coupling.couplingmarkovchain import CouplingMarkovChain
+            cp = CouplingMarkovChain(model, SamplingMethod.BINARYSEARCHTREEADAPTED1D, _use_grid(model, use[1]))
+            cp.initialisation(_USE_PRODUCT)
+            cp.pre_computation(2, _USE_PRODUCT)
+            for _ in range(use[2]):
+                cp.next_level(2, None, _USE_PRODUCT)
+        elif kind == "copula_chain":
+            from rpylib.process.markovchain.markovchainlevycopula import MarkovChainLevyCopula
+            if not model.jump_of_finite_variation():
+                return False        # (margins of infinite variation: the library starts a pool of worker processes per chain - not in a quick check)
+            other = copy.deepcopy(model)
+            cm = zoo.make_copula_model([model, other] if use[3] == 0 else [other, model], zoo.make_copula("clayton"))
+            mc = MarkovChainLevyCopula(cm, _use_grid(cm, ["fixed", use[1], use[2]], dimension=2), SamplingMethod.BINARYSEARCHTREEADAPTED)
+            mc.initialisation(_USE_PRODUCT)
+        elif kind == "sde":
+            if is_exp:
+                return False
+            from rpylib.model.utils import create_levy_forward_market_model
+            from rpylib.process.markovchain.markovchainsde import MarkovChainSDE
+            fm = create_levy_forward_market_model(driver=model)
+            MarkovChainSDE(fm, SamplingMethod.INVERSION, _use_grid(model, use[1])).initialisation(_USE_PRODUCT)
+        elif kind == "levyprocess":
+            lp = LevyProcess(model)
+            lp.initialisation(_USE_PRODUCT)
+            lp.one_simulation_cost(_USE_PRODUCT)
+            lp.deterministic_path(np.array([0.0, 0.5, 1.0]))
+            lp.pre_computation(2, _USE_PRODUCT)
+            lp.simulate_one_path()
+        elif kind == "cos":
+            if not is_exp:
+                return False
+            from rpylib.numerical.cosmethod import COSPricer
+            pr = COSPricer(model, n=use[1])
+            pr.price(_USE_PRODUCT), pr.put(np.array([0.9, 1.1]) * model.spot, 0.5)
+        elif kind == "fft":
+            if not is_exp:
+                return False
+            from rpylib.numerical.fft import FFTPricer
+            FFTPricer(model).call(model.spot, 1.0)
+        elif kind == "calibration":
+            if not is_exp:
+                return False
+            from rpylib.model.utils import run_default_calibration
+            run_default_calibration(model, maturity=1.0, bs_sigma=use[1])
+        elif kind == "evaluate":
+            lm = model.levy_model if is_exp else model      # (the exponential wrapper has no exponent of its own)
+            lm.levy_exponent(0.7 - 0.2j), lm.characteristic_function(1.0, 0.3), model.cumulant.cumulant2(1.0)
+            model.jump_of_finite_variation(), model.levy_triplet.nu.integrate_against_x(-1.0, 1.0) if model.jump_of_finite_variation() else None
+            if is_exp:
+                model.log_characteristic_function(1.0, 0.4 - 0.1j), model.mean(1.0), model.drift()
+        elif kind == "wrapper":
+            wm = ExponentialOfLevyModel(spot=use[1], r=use[2], d=use[3], levy_model=model.levy_model if is_exp else model)
+            if use[4]:
+                return consume(wm, use[4])
+        else:
+            raise ValueError(use)
+    return True
+
+
+def apply_uses(model, uses):
+    """the use history: every consumer in turn; a consumer that refuses the object (raises) has still been handed it"""
+    ran = 0
+    for use in uses:
+        kind = use[0] + (":" + use[4][0] if use[0] == "wrapper" and use[4] else "")
+        try:
+            out = "ran" if consume(model, use) else "not_applicable"
+        except Infra:
+            raise
+        except Exception as e:
+            out = "raises:" + type(e).__name__
+        ran += out == "ran"
+        USE_LOG[f"{kind}:{out}"] = USE_LOG.get(f"{kind}:{out}", 0) + 1
+    return ran
+
+
+def draw_uses(rng, n=None):
+    """1..3 consumers; the first one applies to every kind of model object (plain Lévy model, family exponential model, generic
+    wrapper) and half of the time it is a Markov chain (small explicit box or ordinary grid), the consumer every CTMC / multilevel
+    pricing starts with"""
+    def grid():
+        return rng.choice(GRID_SPECS)
+
+    def universal():
+        x = rng.random()
+        if x < 0.5:
+            return ["chain", grid(), rng.choice(["INVERSION", "ALIAS", "BINARYSEARCHTREEADAPTED1D"])]
+        return rng.choice([["coupling", rng.choice(GRID_SPECS[:7]), rng.choice([0, 1, 2])], ["grid", grid()], ["levyprocess"],
+                           ["copula_chain", rng.choice([0.1, 0.05]), rng.choice([3, 5]), rng.choice([0, 1])],
+                           ["wrapper", rng.choice([1.0, 100.0]), rng.choice([0.0, 0.03]), rng.choice([0.0, 0.01]),
+                            rng.choice([None, ["chain", grid(), "INVERSION"], ["cos", 256], ["levyprocess"]])]])
+
+    def any_():
+        x = rng.random()
+        if x < 0.6:
+            return universal()
+        if x < 0.63:
+            return ["fft"]
+        return rng.choice([["cos", rng.choice([128, 1000])], ["calibration", rng.choice([0.1, 0.2])], ["sde", rng.choice(GRID_SPECS[:7])],
+                           ["evaluate"]])
+    return [universal()] + [any_() for _ in range((n if n is not None else rng.choice([1, 1, 2, 3])) - 1)]
+
+
+def maybe_used(rng, params, prob=0.5):
+    """with probability `prob` the params with a drawn use history attached"""
+    return dict(params, **{USED: draw_uses(rng)}) if rng.random() < prob else params
 
 
 # ------------------------------------------------------------------------------------------------- quadrature of nu
@@ -246,8 +434,32 @@ def untempered(nu):
     return float(prm.g) == 0.0, float(prm.m) == 0.0, mp.mpf(float(prm.c)), mp.mpf(float(prm.y))
 
 
+def support_of(nu):
+    """the measure's own declared support (finite ends only where the measure is a restriction: the density jumps to 0 there and
+    every quadrature must break at them)"""
+    try:
+        a, b = (float(x) for x in nu.support())
+        return (a, b) if a < b else (-math.inf, math.inf)
+    except Exception:
+        return -math.inf, math.inf
+
+
+def within_support(nu, pts):
+    """break points of a quadrature over the whole line, restricted to the declared support (nothing outside, break points at its ends)"""
+    sa, sb = support_of(nu)
+    if not (math.isfinite(sa) or math.isfinite(sb)):
+        return pts
+    return [mp.mpf(sa)] + [p_ for p_ in pts if sa < p_ < sb] + [mp.mpf(sb)]
+
+
 def first_moments(nu, fv, lo=None, hi=None):
-    """(m1 over (-1,1) [None if infinite variation], m1 over the two tails, errors) by quadrature, optionally clipped to [lo, hi]"""
+    """(m1 over (-1,1) [None if infinite variation], m1 over the two tails, errors) by quadrature, optionally clipped to [lo, hi];
+    a measure that declares a bounded support (a model object whose measure some consumer has restricted) is clipped to it"""
+    sa, sb = support_of(nu)
+    if math.isfinite(sa) or math.isfinite(sb):
+        lo, hi = (sa, sb) if lo is None else (max(lo, sa), min(hi, sb))
+        if not lo < hi:
+            return (0.0 if fv else None), 0.0, 0.0
     def clip(pts):
         """the break points restricted to [lo, hi] ∩ [pts[0], pts[-1]] (None when that intersection is empty or a point).
         The first version appended `hi` to every clipped list: with lo < -1 and hi <= 1 the 'left tail' then ran up to hi and the
@@ -340,7 +552,7 @@ def lk_oneone(nu, u):
         return mp.exp(z) - 1
     ul, ur, c_, y_ = untempered(nu)
     pts = PTS[(1 if ul else 0):(len(PTS) - 1 if ur else len(PTS))]
-    v, e = quad_against(nu, g, pts)
+    v, e = quad_against(nu, g, within_support(nu, pts))
     if (ul or ur) and y_ <= 0:
         return complex(mp.nan), math.inf                  # infinite mass of big jumps: not a Lévy measure
     if ul:
@@ -356,7 +568,7 @@ def lk_oneone(nu, u):
 
 def kappa1_quad(nu):
     """integral (e^x - 1) nu(dx) for finite-activity measures"""
-    v, e = quad_against(nu, lambda x: mp.expm1(x), PTS)
+    v, e = quad_against(nu, lambda x: mp.expm1(x), within_support(nu, PTS))
     return float(v.real), e
 
 
@@ -452,10 +664,12 @@ def exponent_after_walk_probe(ctx, fam, params, walk, q, spot, r, d):
     `q` = the quadratures of `exponent_probe` (representation-independent)."""
     # the quadratures `q` belong to make(fam, params); the Lévy and the exponential factories have different defaults
     # (Merton mu_j 0.01 / 0.03), so the exponential model is built from that model's explicit parameter values
-    explicit = dict(params)
+    explicit = plain(params)
     if fam != "bs":
-        p0 = make(fam, params).parameters
+        p0 = make(fam, plain(params)).parameters
         explicit = {k: getattr(p0, k) for k in PRIMS[fam]}
+    if params.get(USED):                        # the exponential model is handed to the same consumers before the walk starts
+        explicit[USED] = params[USED]
     em = make(fam, explicit, exp=True, spot=spot, r=r, d=d)
     lm = em.levy_model
     trip = lm.levy_triplet                      # shared with em.levy_triplet
@@ -730,6 +944,7 @@ def ctmc_probe(ctx, fam, params, spot, r, d, gd, em=None, drift_ref=None, desc=N
     """`em` / `drift_ref` / `desc`: an exponential model that was reached along another construction route (construction_probe); the
     drift the chain must start from is then the martingale drift r - d - psi(-i) of a freshly built model (`drift_ref`), not the
     examined object's own `drift()`"""
+    used_here = em is None and bool(params.get(USED))
     if em is None:
         em = make(fam, params, exp=True, spot=spot, r=r, d=d)
     yb = ybranch(fam, params)
@@ -766,7 +981,19 @@ def ctmc_probe(ctx, fam, params, spot, r, d, gd, em=None, drift_ref=None, desc=N
             return
         ctx.fail("oracle", "c10.ctmc.raises", desc, {"exception": repr(e)[:300]}, cls=cls)
         return
-    ctx.count("c10.ctmc", desc, nontrivial=len(ax) >= 5, branch=f"{fam}:{gd['kind']}")
+    ctx.count("c10.ctmc", desc, nontrivial=len(ax) >= 5, branch=f"{fam}:{gd['kind']}{':used' if used_here else ''}")
+    if used_here:
+        # the chain of an object that was handed to consumers before (USED marker) must be the chain of a never-used twin
+        a_, b_ = chain_signature_or_error(em, gd), chain_signature_or_error(make(fam, plain(params), exp=True, spot=spot, r=r, d=d), gd)
+        diff = ([] if a_ == b_ else [a_, b_]) if isinstance(a_, str) or isinstance(b_, str) else differences(a_, b_)
+        if diff:
+            ctx.fail("oracle", "c10.use_then_inspect.second_chain", desc,
+                     {"what": "the Markov chain (grid built from the object, drift, equivalent diffusion coefficient, jump rates) of a model object "
+                              "that was handed to consumers before differs from the chain of a never-used twin", "differs_at": [str(x) for x in diff[:12]],
+                      "process_drift_used": a_ if isinstance(a_, str) else a_["process_drift"],
+                      "process_drift_twin": b_ if isinstance(b_, str) else b_["process_drift"]},
+                     cls=dict(family=fam, ybranch=yb, kind="family", used=True, consumer="+".join(u[0] for u in params[USED]), check="second_chain"))
+            return
     lo, hi = (float(x) for x in g.truncations[0])
     sxq = math.fsum(x * float(qq) for x, qq in zip(ax, q))
     # ---- S: mean per unit time of the truncated process in its declared representation, by quadrature of the density
@@ -819,10 +1046,10 @@ LEVY_SOURCES = ["factory", "class", "reinit", "of_exp"]
 
 def explicit_params(fam, params):
     """the primary parameter values of make(fam, params) (the Lévy and the exponential factories have different defaults)"""
-    plain = {k: v for k, v in params.items() if k != zoo.REINIT}
+    pl = {k: v for k, v in params.items() if k not in (zoo.REINIT, USED)}
     if fam == "bs":
-        return plain
-    p0 = make(fam, plain).parameters
+        return pl
+    p0 = make(fam, pl).parameters
     return {k: getattr(p0, k) for k in PRIMS[fam]}
 
 
@@ -858,8 +1085,10 @@ def draw_plan(rng, fam, fv, native, chain=None):
     post = [rng.choice(allowed) for _ in range(rng.choice([0, 0, 1, 2]))]
     src = rng.choice(["of_exp", "class"] if fam == "bs" else LEVY_SOURCES)
     second = rng.choice([None, None] + list(range(len(post) + 1)))
+    use_at = rng.choice([None, None, "start", "wrapped", "post"])
     return dict(source=src, pre=pre, eval_before=rng.random() < 0.5, post=post, second_wrap_after_post_step=second,
-                second_market=[rng.choice([1.0, 50.0, 2500.0]), rng.choice([0.0, 0.01, 0.04]), rng.choice([0.0, 0.02])], chain=chain)
+                second_market=[rng.choice([1.0, 50.0, 2500.0]), rng.choice([0.0, 0.01, 0.04]), rng.choice([0.0, 0.02])], chain=chain,
+                use_at=use_at, uses=draw_uses(rng) if use_at else None)
 
 
 def construction_probe(ctx, fam, params, plan, spot, r, d, q):
@@ -870,7 +1099,10 @@ def construction_probe(ctx, fam, params, plan, spot, r, d, q):
     market.  After every step every live exponential model must satisfy the martingale statements of the property: cf(-i) =
     forward; drift() = r - d - psi(-i) with psi(-i) (i) of a freshly built, never converted model and (ii) the Lévy–Khintchine
     integral of the wrapper's CURRENT triplet by quadrature; omega / cf equal to those of the freshly built family model; the
-    direct-simulation drift (finite-activity families); at the end the Markov-chain drift on a grid (plan["chain"])."""
+    direct-simulation drift (finite-activity families); at the end the Markov-chain drift on a grid (plan["chain"]).
+    plan["use_at"] / plan["uses"]: the plain Lévy model right after its construction ("start"), or the generic wrapper right after
+    wrapping ("wrapped") or after the last conversion ("post"), is handed to library consumers of models (apply_uses) - then the
+    same statements are demanded again of every live exponential model."""
     explicit = explicit_params(fam, params)
     yb = ybranch(fam, params)
     known_branch = fam == "cgmy" and yb in ("y<0", "y=0", "y=1")
@@ -883,8 +1115,11 @@ def construction_probe(ctx, fam, params, plan, spot, r, d, q):
         fresh_lm = make(fam, explicit)
         psi_ref = complex(fresh_lm.levy_exponent(-1j))
         native = fresh_lm.levy_triplet.representation
+        nu_ref = nu_signature(fresh_lm.levy_triplet.nu)
         lm, pobj, live = build_levy(fam, explicit, plan["source"], spot, r, d)
         live = [(lab, em, s_, r_, d_, "family") for lab, em, s_, r_, d_ in live]
+        if plan.get("use_at") == "start":
+            apply_uses(lm, plan["uses"])
     except Exception as e:
         ctx.count("c10.construction", desc, nontrivial=False, branch=fam)
         ctx.fail("oracle", "c10.construction.raises", desc, {"stage": "build", "exception": repr(e)[:300]}, cls=cls0)
@@ -954,6 +1189,18 @@ def construction_probe(ctx, fam, params, plan, spot, r, d, q):
                               omega=float(em.omega), omega_fresh=float(fe.omega), cf=[va.real, va.imag], cf_fresh=[vb.real, vb.imag]),
                          cls=dict(cls, check="fresh"))
                 return False
+            # (c') the density the model declares is still the density of the freshly built Lévy model (conversions, wrapping and
+            #      consumers do not touch the measure)
+            try:
+                dn = differences(nu_signature(em.levy_triplet.nu), nu_ref)
+            except Exception as e:
+                dn = ["raises:" + type(e).__name__]
+            if dn:
+                ctx.fail("oracle", "c10.construction.fresh", where,
+                         dict(info, what="the Lévy density the model declares (support, values, finite-variation flag) differs from that of the "
+                                         "freshly built Lévy model", differs_at=dn[:10], measure_now=type(em.levy_triplet.nu).__name__),
+                         cls=dict(cls, check="density"))
+                return False
             # (d) direct simulation (finite-activity families: jump_increment exists, LevyProcess simulates the model directly)
             if kq is not None and ke <= QUAD_OK:
                 pd = float(em.process_drift())
@@ -988,6 +1235,8 @@ def construction_probe(ctx, fam, params, plan, spot, r, d, q):
         if pobj is not None:       # the family class built from the SAME parameter object as the (converted) Lévy model
             live.append(("family_same_parameters", models_description[zoo._TYPES[fam]].exponential_of_levy_model(
                 spot=spot, r=r, d=d, parameters=pobj), spot, r, d, "family"))
+        if plan.get("use_at") == "wrapped":
+            apply_uses(live[[x[0] for x in live].index("wrap1")][1], plan["uses"])
         ok = check("wrapped")
         second = plan.get("second_wrap_after_post_step")
         for i, rv in enumerate([None] + list(plan["post"])):
@@ -1001,6 +1250,9 @@ def construction_probe(ctx, fam, params, plan, spot, r, d, q):
                 s2, r2, d2 = plan["second_market"]
                 live.append(("wrap2", ExponentialOfLevyModel(spot=s2, r=r2, d=d2, levy_model=lm), s2, r2, d2, "generic"))
                 ok = check(f"second_wrap_after[{i}]")
+        if ok and plan.get("use_at") == "post":
+            apply_uses(live[[x[0] for x in live].index("wrap1")][1], plan["uses"])
+            ok = check("used")
         if ok:
             now = complex(lm.levy_exponent(-1j))
             if not abs(now - psi_ref) <= 1e-12 * (1 + abs(psi_ref) + abs(float(trip.a)) + mom):
@@ -1015,7 +1267,8 @@ def construction_probe(ctx, fam, params, plan, spot, r, d, q):
         ctx.fail("oracle", "c10.construction.raises", desc, {"exception": repr(e)[:300], "representation_now": trip.representation.name}, cls=cls0)
         return
     ctx.count("c10.construction", desc, nontrivial=changes >= 1,
-              branch=f"{fam}:{plan['source']}:{'pre' if plan['pre'] else ''}{'+post' if plan['post'] else ''}{'+second' if second is not None else ''}")
+              branch=f"{fam}:{plan['source']}:{'pre' if plan['pre'] else ''}{'+post' if plan['post'] else ''}{'+second' if second is not None else ''}"
+                     f"{'+used@' + plan['use_at'] if plan.get('use_at') else ''}")
     if not ok:
         return
     # ---- cf route (C): omega of the generic wrapper is M's omega of the ORIGINAL drift
@@ -1031,6 +1284,181 @@ def construction_probe(ctx, fam, params, plan, spot, r, d, q):
     if plan.get("chain") and fam != "bs" and not (fam == "cgmy" and yb == "y<0"):
         ctmc_probe(ctx, fam, params, spot, r, d, plan["chain"], em=em1, drift_ref=(r - d) - psi_ref.real, desc=desc,
                    cls_extra=dict(source=plan["source"], construction=True, wrapper="generic"))
+
+
+# ------------------------------------------ S: use-then-inspect histories (aliasing between a model object and its consumers)
+NU_POINTS = [-2.0, -0.5, -0.1, -0.01, 0.01, 0.1, 0.5, 2.0]
+USE_KINDS = ["levy", "family", "generic"]
+
+
+def nu_signature(nu):
+    """the density as the object states it: declared support, values at fixed points, finite-variation flag"""
+    with np.errstate(all="ignore"):
+        return dict(support=[float(x) for x in nu.support()], density=[float(nu(x)) for x in NU_POINTS],
+                    finite_variation=bool(nu.jump_of_finite_variation()))
+
+
+def fingerprint(model):
+    """everything the object says about the PROCESS it describes, independent of the representation its triplet happens to be in:
+    sigma, density, the triplet drift re-expressed (on a copy) in the CENTER and the canonical representation, the drift the
+    exponent uses, exponent, cumulants; for an exponential model also omega, drift(), process_drift(), the characteristic function
+    of the log-spot.  A query that raises is recorded as such."""
+    out = {}
+
+    def q(name, f):
+        try:
+            with np.errstate(all="ignore"):
+                out[name] = f()
+        except Exception as e:
+            out[name] = "raises:" + type(e).__name__
+    trip = model.levy_triplet
+    q("sigma", lambda: float(trip.sigma))
+    q("nu", lambda: nu_signature(trip.nu))
+
+    def conv(rep):
+        t = copy.deepcopy(trip)
+        t.set_representation(rep)
+        return float(t.a)
+    q("triplet_drift_in_CENTER", lambda: conv(R.CENTER))
+    q("triplet_drift_in_ONEONE", lambda: conv(R.ONEONE))
+    q("original_drift", lambda: float(model._original_drift))
+    lm = getattr(model, "levy_model", model)            # (the exponential wrapper has no exponent of its own: its Lévy model's)
+    for u in (0.7, -1j, -1.5 + 0.5j):
+        q(f"levy_exponent({u})", lambda u=u: [complex(lm.levy_exponent(u)).real, complex(lm.levy_exponent(u)).imag])
+    for k in (1, 2, 4):
+        q(f"cumulant{k}(1)", lambda k=k: float(getattr(model.cumulant, f"cumulant{k}")(1.0)))
+    if isinstance(model, ExponentialOfLevyModel):
+        q("market", lambda: [float(model.spot), float(model.r), float(model.d)])
+        q("omega", lambda: float(model.omega))
+        q("drift()", lambda: float(model.drift()))
+        q("process_drift()", lambda: float(model.process_drift()))
+        for t, u in ((1.0, -1j), (0.5, 0.7 - 0.3j)):
+            q(f"log_characteristic_function({t},{u})", lambda t=t, u=u: [complex(model.log_characteristic_function(t, u)).real,
+                                                                         complex(model.log_characteristic_function(t, u)).imag])
+    return out
+
+
+def differences(a, b, tol=1e-12, path=""):
+    """paths at which two JSON-like values differ (numbers: beyond tol * (1 + magnitude); nan == nan)"""
+    if isinstance(a, dict) and isinstance(b, dict):
+        return [d for k in sorted(set(a) | set(b)) for d in
+                (differences(a[k], b[k], tol, f"{path}.{k}" if path else str(k)) if k in a and k in b else [f"{path}.{k}"])]
+    if isinstance(a, (list, tuple)) and isinstance(b, (list, tuple)):
+        if len(a) != len(b):
+            return [path + ".len"]
+        return [d for i, (x, y) in enumerate(zip(a, b)) for d in differences(x, y, tol, f"{path}[{i}]")]
+    if isinstance(a, bool) or isinstance(b, bool) or isinstance(a, str) or isinstance(b, str) or a is None or b is None:
+        return [] if a == b else [path]
+    if a == b or (a != a and b != b):
+        return []
+    return [] if abs(a - b) <= tol * (1 + max(abs(a), abs(b))) else [path]
+
+
+def grid_of(model, gd):
+    if gd["kind"] == "uniform":
+        return zoo.make_grid("uniform", model, gd["h"], truncation_probability=gd["tp"])[0]
+    return zoo.make_grid("fixed", model, gd["h"], nb_of_points=gd["nb"])[0]
+
+
+def chain_signature(model, gd, method=SamplingMethod.INVERSION):
+    """the Markov chain a CTMC pricing of `model` starts from: grid built from the model, drift, diffusion coefficient, rates"""
+    with np.errstate(all="ignore"):
+        g = grid_of(model, gd)
+        mc = MarkovChainProcess(model, method, g)
+        mc.initialisation(_USE_PRODUCT)
+        q = create_q_vector(mc.model.levy_triplet.nu, g)
+        return dict(axis=[float(x) for x in g.axes[0]], truncations=[float(x) for x in g.truncations[0]],
+                    process_drift=float(mc.process_drift()), equivalent_diffusion_coefficient=float(mc.equivalent_diffusion_coefficient),
+                    intensity_of_jumps=float(mc.intensity_of_jumps), rates=[float(x) for x in q],
+                    chain_triplet_drift=float(mc.model.levy_triplet.a))
+
+
+def chain_signature_or_error(model, gd):
+    try:
+        return chain_signature(model, gd)
+    except Infra:
+        raise
+    except Exception as e:
+        return "raises:" + type(e).__name__
+
+
+def use_probe(ctx, fam, params, kind, uses, spot, r, d, gd):
+    """S, use-then-inspect history on ONE model object (kind: a plain Lévy model / a family exponential model / the generic wrapper
+    around a plain Lévy model): the object is handed to the library's consumers of models one after the other (consume); after
+    every consumer each judged object (the object itself and the Lévy model it shares its triplet with) must still describe the
+    same process as a never-used twin built the same way (fingerprint: density, sigma, drift in a common representation, exponent,
+    cumulants, omega, drifts, cf of the log-spot); then a Markov chain built from the USED object on a grid built from the USED
+    object must be the chain of the twin (grid, drift, diffusion coefficient, rates).  That the fingerprint of the twin itself is
+    the Lévy–Khintchine integral / the forward is the subject of the other probes, which receive used objects too (USED marker)."""
+    yb = ybranch(fam, params)
+    desc = dict(family=fam, params=params, use_then_inspect=dict(kind=kind, uses=uses, chain=gd), spot=spot, r=r, d=d)
+    cls0 = dict(family=fam, ybranch=yb, kind=kind, used=True)
+    pl = plain(params)
+
+    def build():
+        if kind == "levy":
+            m = make(fam, pl)
+            return m, [("levy_model", m)]
+        if kind == "family":
+            em = make(fam, pl, exp=True, spot=spot, r=r, d=d)
+            return em, [("exponential_model", em), ("its_levy_model", em.levy_model)]
+        lm = make(fam, pl)
+        em = ExponentialOfLevyModel(spot=spot, r=r, d=d, levy_model=lm)
+        return em, [("generic_wrapper", em), ("wrapped_levy_model", lm)]
+    try:
+        obj, judged = build()
+        twin, twin_judged = build()
+        ref = [fingerprint(m) for _, m in twin_judged]
+        if any(differences(fingerprint(m), f) for (_, m), f in zip(judged, ref)):
+            ctx.branches["c10.use_then_inspect:two_fresh_objects_differ"] += 1
+            return
+    except Infra:
+        raise
+    except Exception as e:
+        ctx.branches[f"c10.use_then_inspect:build_raises:{type(e).__name__}"] += 1
+        return
+    ran = 0
+    for i, use in enumerate(uses):
+        ran += apply_uses(obj, [use])
+        for (lab, m), f in zip(judged, ref):
+            now = fingerprint(m)
+            diff = differences(now, f)
+            if diff:
+                ctx.count("c10.use_then_inspect", desc, nontrivial=True, branch=f"{fam}:{kind}")
+                ctx.fail("oracle", "c10.use_then_inspect", dict(desc, step=i),
+                         {"what": f"after the object was handed to the consumer {use} it no longer describes the process of a never-used "
+                                  "twin built the same way (a consumer must leave the caller's object describing the same process; the "
+                                  "exponent / cumulants / forward of the twin are judged by the other probes)",
+                          "judged_object": lab, "differs_at": diff[:12], "triplet_now": dict(a=float(m.levy_triplet.a),
+                          representation=m.levy_triplet.representation.name, nu=type(m.levy_triplet.nu).__name__),
+                          "used": {k: now[k] for k in sorted({x.split(".")[0].split("[")[0] for x in diff})},
+                          "twin": {k: f[k] for k in sorted({x.split(".")[0].split("[")[0] for x in diff})}},
+                         cls=dict(cls0, consumer=use[0], check="twin"))
+                return
+    ctx.count("c10.use_then_inspect", desc, nontrivial=ran >= 1, branch=f"{fam}:{kind}:{'+'.join(u[0] for u in uses)}")
+    # ---- the second chain: built from the used object, on a grid built from the used object
+    if fam == "bs" or (fam == "cgmy" and yb == "y<0"):
+        return
+    a, b = chain_signature_or_error(obj, gd), chain_signature_or_error(twin, gd)
+    if isinstance(a, str) and isinstance(b, str):
+        ctx.branches[f"c10.use_then_inspect:second_chain:{b}"] += 1
+        return
+    diff = [a, b] if isinstance(a, str) or isinstance(b, str) else differences(a, b)
+    if diff:
+        short = lambda x: x if isinstance(x, str) else {k: (v if not isinstance(v, list) else v[:6] + ["..."] * (len(v) > 6)) for k, v in x.items()}
+        ctx.fail("oracle", "c10.use_then_inspect.second_chain", desc,
+                 {"what": "the Markov chain (grid built from the object, drift, equivalent diffusion coefficient, jump rates) of a model object "
+                          "that was handed to consumers before differs from the chain of a never-used twin",
+                  "differs_at": [str(x) for x in diff[:12]], "used": short(a), "twin": short(b)},
+                 cls=dict(cls0, consumer="+".join(u[0] for u in uses), check="second_chain"))
+        return
+    for (lab, m), f in zip(judged + twin_judged, ref + ref):
+        diff = differences(fingerprint(m), f)
+        if diff:
+            ctx.fail("oracle", "c10.use_then_inspect", dict(desc, step="second_chain"),
+                     {"what": "after a (second) Markov chain was built from the object it no longer describes the process of a never-used twin",
+                      "judged_object": lab, "differs_at": diff[:12]}, cls=dict(cls0, consumer="chain", check="twin"))
+            return
 
 
 # ------------------------------------------------- C + S through theorems: closed forms as exact rational terms
@@ -1325,14 +1753,14 @@ def edge_probe(ctx, fam, params, restr, rng, label=None):
     if restr != "im>=0":                       # m = 0: E[e^X] is infinite, no exponential model
         routes_probe(ctx, fam, params, spot, r, d)
         if q is not None and q["i0"]:
-            native = make(fam, params).levy_triplet.representation.value
+            native = make(fam, plain(params)).levy_triplet.representation.value
             exponent_after_walk_probe(ctx, fam, params, [2 if native != 2 else 3, 4, native], q, spot, r, d)
             construction_probe(ctx, fam, params, draw_plan(rng, fam, q["fv"], native), spot, r, d, q)
     if fam in ("hem", "merton", "bs"):
-        ss, ws = closed_form_inputs(rng, fam, make(fam, params), 3, 3)
+        ss, ws = closed_form_inputs(rng, fam, make(fam, plain(params)), 3, 3)
         closed_form_probe(ctx, fam, params, ss, ws)
     if fam != "bs":
-        fv = bool(make(fam, params).levy_triplet.nu.jump_of_finite_variation())
+        fv = bool(make(fam, plain(params)).levy_triplet.nu.jump_of_finite_variation())
         walk_probe(ctx, fam, params, draw_walk(rng, fv))
         if restr is None:
             ctmc_probe(ctx, fam, params, spot, r, d, dict(kind="uniform", h=rng.choice([0.1, 0.05]), tp=0.99))
@@ -1342,14 +1770,16 @@ def run(ctx):
     rng = ctx.rng
     models = stream(rng, ctx.n(24, 150))
     nu_u = ctx.n(3, 5)
-    for i, (fam, params) in enumerate(models):
+    for i, (fam, params0) in enumerate(models):
+        # use-then-inspect: half of the models reach EVERY probe below as objects that were first handed to library consumers
+        params = maybe_used(rng, params0)
         us = [-1j] + rng.sample([u for u in U_GRID if u != -1j], nu_u - 1)
         q = exponent_probe(ctx, fam, params, us)
         cumulant_probe(ctx, fam, params)
         spot, r, d = rng.choice([100.0, 1.0, 2500.0]), rng.choice([0.0, 0.02, 0.05]), rng.choice([0.0, 0.01, 0.03])
         if q is not None:
             fv_ = q["fv"]
-            native = make(fam, params).levy_triplet.representation.value
+            native = make(fam, plain(params)).levy_triplet.representation.value
             for _ in range(ctx.n(2, 4)):
                 wk = [rng.choice([1, 2, 3, 4] if fv_ else [2, 3, 4]) for _ in range(rng.randint(1, 4))]
                 if all(x == native for x in wk):
@@ -1364,15 +1794,21 @@ def run(ctx):
                     chain = (dict(kind="uniform", h=rng.choice([0.1, 0.05]), tp=0.99) if rng.random() < 0.5
                              else dict(kind="fixed", h=rng.choice([0.1, 0.05]), nb=rng.choice([9, 21])))
                 construction_probe(ctx, fam, params, draw_plan(rng, fam, q["fv"], native, chain), spot, r, d, q)
+        # one object, consumer after consumer, a twin after each; then a second chain from the used object
+        for kind in rng.sample(USE_KINDS, ctx.n(2, 3)):
+            gd2 = (dict(kind="uniform", h=rng.choice([0.1, 0.05, 0.01]), tp=rng.choice([0.99, 0.999])) if rng.random() < 0.7
+                   else dict(kind="fixed", h=rng.choice([0.1, 0.05]), nb=rng.choice([9, 21])))
+            use_probe(ctx, fam, dict(params0, __reinit__=True) if (rng.random() < 0.25 and fam != "bs") else params0, kind,
+                      draw_uses(rng, n=rng.choice([1, 2, 3])), spot, r, d, gd2)
         if fam == "bs":
             continue
         # the same model after a parameter history (edit, initialisation(), edit back, initialisation(): what calibration does)
-        hp = dict(params, __reinit__=True)
+        hp = maybe_used(rng, dict(params0, __reinit__=True))
         routes_probe(ctx, fam, hp, spot, r, d)
         exponent_probe(ctx, fam, hp, [-1j, rng.choice([u for u in U_GRID if u != -1j])])
         if i % 3 == 0:
             cumulant_probe(ctx, fam, hp)
-        m = make(fam, params)
+        m = make(fam, params0)
         fv = bool(m.levy_triplet.nu.jump_of_finite_variation())
         for _ in range(ctx.n(3, 8)):
             walk_probe(ctx, fam, params, draw_walk(rng, fv))
@@ -1387,13 +1823,18 @@ def run(ctx):
     cf += [(f, dict(zoo.draw_params(rng, f), __reinit__=True)) for f in ("hem", "merton")]
     for fam, params in cf:
         ss, ws = closed_form_inputs(rng, "bs" if fam == "bsmu" else fam, None if fam == "bsmu" else make(fam, params), ctx.n(3, 8), ctx.n(3, 8))
-        closed_form_probe(ctx, fam, params, ss, ws)
+        closed_form_probe(ctx, fam, params if fam == "bsmu" else maybe_used(rng, params), ss, ws)
     # ---- edge-of-constraint parameters through every probe
     for fam, params, restr in edge_stream(rng, ctx.thorough):
-        edge_probe(ctx, fam, params, restr, rng)
+        edge_probe(ctx, fam, maybe_used(rng, params) if restr is None else params, restr, rng)
+        if restr is None:
+            use_probe(ctx, fam, params, rng.choice(USE_KINDS), draw_uses(rng), 100.0, 0.02, 0.01, dict(kind="uniform", h=0.1, tp=0.99))
     # ---- parameters next to (not on) every special value of the families' formulas through every probe
     for fam, params, label in near_stream(rng, ctx.thorough):
-        edge_probe(ctx, fam, params, None, rng, label=label)
+        edge_probe(ctx, fam, maybe_used(rng, params), None, rng, label=label)
+    for k, v in sorted(USE_LOG.items()):
+        ctx.branches["c10.use:" + k] += v
+    USE_LOG.clear()
     ctx.notes.append("largest observed discrepancy / tolerance per oracle: " +
                      ", ".join(f"{k} {v:.2e}" for k, v in sorted(getattr(ctx, "margins", {}).items())))
 
@@ -1402,7 +1843,10 @@ def replay(ctx, rec):
     d = rec["input"]
     p = rec.get("probe", "")
     fam, params = d["family"], d["params"]
-    if d.get("closed_form"):
+    if d.get("use_then_inspect"):
+        u = d["use_then_inspect"]
+        use_probe(ctx, fam, params, u["kind"], u["uses"], d["spot"], d["r"], d["d"], u["chain"])
+    elif d.get("closed_form"):
         ss = [d["s"]] if "s" in d else []
         ws = [tuple(d["w"])] if "w" in d else []
         closed_form_probe(ctx, fam, params, ss, ws, ts=(d["t"],) if "t" in d else ())
@@ -1427,9 +1871,11 @@ def replay(ctx, rec):
 
 def search(ctx):
     rng = ctx.rng
-    for fam, params in zoo.model_stream(rng, ctx.n(30, 120)):
-        m = make(fam, params)
+    for fam, params0 in zoo.model_stream(rng, ctx.n(30, 120)):
+        m = make(fam, params0)
         fv = bool(m.levy_triplet.nu.jump_of_finite_variation())
+        params = maybe_used(rng, params0)
+        use_probe(ctx, fam, params0, rng.choice(USE_KINDS), draw_uses(rng), 100.0, 0.02, 0.01, dict(kind="uniform", h=0.05, tp=0.99))
         q = exponent_probe(ctx, fam, params, [-1j, 0.7])
         if q is not None:
             exponent_after_walk_probe(ctx, fam, params, draw_walk(rng, fv)[:4], q, 100.0, 0.02, 0.01)
